@@ -9,12 +9,13 @@ git checkout -q -- . ; rm -f demo_verif_test.go
 TMPM=$(mktemp -d /tmp/seedmut.XXXXXX); cp -r "$MUT"/. "$TMPM"/
 # keep MUT dirs out of ./... builds
 for d in MUT1 MUT2 _MUT1 _MUT2; do [ -d "$d" ] && mv "$d" ".$d.stash"; done
+TAGS=""; grep -q "go:build verif" "$TMPM/demo_test.go" && TAGS="-tags verif"
 TEST=$(grep -o 'func Test[A-Za-z0-9_]*' "$TMPM/demo_test.go" | head -1 | sed 's/func //')
 cp "$TMPM/demo_test.go" demo_verif_test.go
-R0=$(timeout 300 go test -vet=off -count=1 -run "^$TEST\$" . 2>&1 | tail -3); S0=$?
+R0=$(timeout 300 go test $TAGS -vet=off -count=1 -run "^$TEST\$" . 2>&1 | tail -3); S0=$?
 echo "$R0" | grep -q '^ok' && S0=0 || S0=1
 git apply "$TMPM/patch.diff" || { echo "PATCH DOES NOT APPLY"; exit 3; }
-R1=$(timeout 300 go test -vet=off -count=1 -run "^$TEST\$" . 2>&1 | tail -3)
+R1=$(timeout 300 go test $TAGS -vet=off -count=1 -run "^$TEST\$" . 2>&1 | tail -3)
 echo "$R1" | grep -q '^ok' && S1=0 || S1=1
 rm -f demo_verif_test.go
 R2=$(flock /tmp/gotest.lock timeout 900 go test -vet=off -count=1 ./... 2>&1 | tail -6)
@@ -27,6 +28,7 @@ if [ $S0 = 0 ] && [ $S1 = 1 ] && [ $S2 = 0 ]; then
   cp "$TMPM/patch.diff" "$TMPM/demo_test.go" /verif/seeded/$ID/
   [ -f "$TMPM/README.md" ] && cp "$TMPM/README.md" /verif/seeded/$ID/
   echo "$TEST" > /verif/seeded/$ID/TESTNAME
+  [ -n "$TAGS" ] && echo "$TAGS" > /verif/seeded/$ID/GOTAGS
   echo CONFIRMED $ID
 else
   echo "NOT CONFIRMED $ID"; echo "$R0"; echo "$R1"; echo "$R2"
